@@ -43,7 +43,13 @@ def node_bytes(node):
     prog = [("PROTO", 2)]
     for e in node["evs"]:
         if "g" in e:
-            prog.append(("GLOBAL", tuple(e["g"])))
+            if "." in e["g"][1] or e.get("id", 1) % 3 == 0:
+                # protocol 4 spelling: dotted qualified names (Outer.attr) are resolved attribute by
+                # attribute by the stock find_class; the allowlist knows only whole names
+                prog[0] = ("PROTO", 4)
+                prog += [("SHORT_BINUNICODE", e["g"][0]), ("SHORT_BINUNICODE", e["g"][1]), "STACK_GLOBAL"]
+            else:
+                prog.append(("GLOBAL", tuple(e["g"])))
             if e["g"] == SINK:
                 prog += [("BININT2", e.get("id", 0) % 65536), "TUPLE1", "REDUCE"]
             prog.append("POP")
